@@ -8,9 +8,10 @@ namespace Gts
 namespace Loc
 
 mutual
-/-- every `Ranged` has `Start < End` (what `PartialRange` enforces) -/
+/-- every `Ranged` (what `PartialRange` enforces) and every `Ambiguous` has `Start < End` -/
 def wf : Loc → Bool
   | ranged s e _ _ => decide (s < e)
+  | ambiguous s e => decide (s < e)
   | joined ls => wfList ls
   | ordered ls => wfList ls
   | compl l => wf l
